@@ -34,6 +34,7 @@ def swarm(prop, r, tier):
     cfg["sparse"] = R.chance(0.3)
     cfg["deprecated_iq"] = R.chance(0.25)
     cfg["slot_reuse"] = prop in ("C07", "C16", "C05", "C09", "C01") and R.chance(0.1)
+    cfg["mux_slot0"] = prop in ("C14", "C15", "C12", "C16", "C05") and not cfg["slot_reuse"] and R.chance(0.08)
     cfg["mixed_scale"] = prop in ("C01", "C02", "C03", "C07", "C09") and R.chance(0.1)
     if prop in ("C01", "C02", "C07") and R.chance(0.03):
         cfg["names"] = "summary"
@@ -182,6 +183,32 @@ def drive(sess, rnd, cfg, record):
                         o = make_observe(g, sess.model, cfg)
                         if emit(o):
                             yield o
+    if cfg.get("mux_slot0") and sess.model.mux() is None and "PMux" in cfg["kinds"]:
+        # the original first source goes away and the mux is the next thing
+        # added: it takes over node slot 0
+        m = sess.model
+        late = g.op_add_source(m)
+        if emit(late):
+            yield late
+        m = sess.model
+        if len(m.sources()) >= 2:
+            d = {"op": "del_comp", "name": m.sources()[0], "del_childs": True}
+            if emit(d):
+                yield d
+            m = sess.model
+            ins = g.can_parent(m)
+            if ins:
+                spec = g.comp("PMux", m, g.vnom(m, ins[0]))
+                sel = R.sample(ins, min(len(ins), R.randint(1, 3)))
+                g.mux_rs(spec, len(sel))
+                mx = {"op": "add_comp", "parent": sel, "comp": spec, "group": g.group(), "rail": g.rail(m, "PMux")}
+                if emit(mx):
+                    yield mx
+                m = sess.model
+                if spec["name"] in m.comps:
+                    l = g.op_add_comp(m, kinds=["PLoad", "ILoad", "RLoss"], parent=spec["name"])
+                    if emit(l):
+                        yield l
     if want_phases:
         first = []
         if R.chance(0.3):
